@@ -80,6 +80,12 @@ CLAIMS = {
         'technique': 'Lean 4 proof (configuration algebra, induction over set_default_config sequences, decide over regenerated tables) + translator + differential correspondence',
         'design_ref': 'DESIGN.md section 5, C18',
     },
+    'C16': {
+        'text': "Lean theorems over the model of colored_render_to_stream: C16.strip (for EVERY SDoc stream, removing the styling gives exactly the plain rendering), C16.innermost (interpreting the written SGR sequences with the terminal state machine, every character is shown in the style of the innermost open syntax-token annotation, the enclosing style being restored when an inner token ends; non-token annotations change nothing), C16.ends_reset (the stream always ends in the reset state), C16.table_total / tokens_exist (decide over the tables regenerated from /repo: every token the printers attach has a pygments mapping), styleOf_total; with C04.ann_balanced the annotations of every layout are well bracketed. Tied to /repo by rendering values and small annotated documents with colour forced on under all installed pygments styles + the two bundled ones and comparing the byte stream with the model; an SGR decoder oracle checks stripped text == pformat text and final reset on every implementation output. F13, F14 repaired.",
+        'note': "colorful / pygments are environment: a style is opaque to the model; 'every style string starts with reset' is validated over all 32 attribute shapes on every run",
+        'technique': 'Lean 4 proof (state-machine simulation of the colour stack) + translator tables + differential correspondence over all styles + SGR decoder oracle',
+        'design_ref': 'DESIGN.md section 5, C16',
+    },
     'C04': {
         'text': "Lean theorems C04.sound / sound_plain (the stack machine's output is a rendering of the document in the reference semantics Lay, for every document, width, ribbon and both strategies), ann_balanced (push/pop well bracketed), render_trim (the renderer only trims trailing whitespace), with lay_normalize (Lay closed under normalisation). The model is tied to /repo by exact comparison of SDoc streams and rendered text on all documents <= 4 (thorough: 5) nodes x 96 configurations plus seeded random documents. The forcing clause for bare hardline is known finding K1.",
         'note': "trusted: Lean kernel; model = code only on the explored inputs; ribbon fractions restricted to float-exact ones; FlatChoice lazy normalisation modelled as a pure function",
